@@ -17,7 +17,7 @@ RULE = ("seeded circuits in which a random subset of edges carries (delay, sprea
         "written augmented ODE (chain of n=round((d/s)^2) stages of rate n/d per edge) integrated by the reference; M-delay "
         "reads the emitted chain orders and rates and asserts mean delay n/rate = d (unit DC gain is structural for the "
         "recorded chain equations); non-trivial = at least one gamma-kernel edge; distinct = distinct spec hash")
-DECIDING = ['matrix_kernel_connections', 'matrix_kernel_order_rounds_up', 'uniform_kernel_models', 'rows_compared', 'kernel_edges', 'mdelay_chains', 'vectorized_runs', 'scipy_runs', 'orders_seen_2plus']
+DECIDING = ['matrix_kernel_connections', 'matrix_kernel_order_rounds_up', 'uniform_kernel_models', 'rows_compared', 'kernel_edges', 'mdelay_chains', 'vectorized_runs', 'scipy_runs', 'orders_seen_2plus', 'dde_approx_models']
 ASSUMPTIONS = ['(d/s)^2 >= 1 and away from rounding ties', 'chain states start at zero']
 CASE_TIMEOUT = 240
 FOCUS = ['gamma_delay_within_one_step', 'undelayed_shares_source_with_delayed', 'two_delayed_same_pair', 'delayed_source_op_has_intra_consumer',
@@ -44,6 +44,8 @@ def plan(tier, seed):
     cases += [{'family': 'matrix', 'cseed': rnd.randrange(1 << 30)} for _ in range(40 if tier == 'quick' else 900)]
     # all delayed edges of the model share one (delay, spread) pair - the usual way delays are specified
     cases += [{'family': 'uniform_kernel', 'cseed': rnd.randrange(1 << 30)} for _ in range(40 if tier == 'quick' else 900)]
+    # delays without spread, the order given as dde_approx=n to run (fixed-step and adaptive solvers)
+    cases += [{'family': 'dde_approx', 'cseed': rnd.randrange(1 << 30)} for _ in range(30 if tier == 'quick' else 600)]
     # two or three (delay, spread) pairs shared by the delayed edges of the model: several edges per delay chain, several chains
     cases += [{'family': 'few_kernels', 'cseed': rnd.randrange(1 << 30)} for _ in range(50 if tier == 'quick' else 1000)]
     return cases
@@ -77,7 +79,17 @@ def make_case(case, ctx):
             nd = 0
             mixed = case.get('family') == 'mixed_kinds' or want == 'bundle_mixes_discrete_and_gamma'
             uniform = case.get('family') in ('uniform_kernel', 'few_kernels') or case.get('kernels') == 'few'
-            if uniform:
+            dde_family = case.get('family') == 'dde_approx'
+            if dde_family:
+                # all delayed edges get the order n handed to run as dde_approx=n (their delays differ); no edge carries a spread
+                uniform = True
+                n_dde = rnd.choice([1, 2, 2, 3, 4])
+                kernels = []
+                for _k in range(rnd.choice([1, 2, 3])):
+                    d = rnd.uniform(max(2.0, 1.4 * n_dde), max(9.0, 1.4 * n_dde + 4.0)) * dt
+                    kernels.append((round(d, 7), round(d, 7) / math.sqrt(n_dde)))
+                spec['dde_approx'] = n_dde
+            if uniform and not dde_family:
                 kernels = []
                 for _k in range(1 if case.get('family') == 'uniform_kernel' else rnd.choice([2, 2, 3])):
                     n = rnd.choice([1, 2, 2, 3, 4])
@@ -194,6 +206,10 @@ def run_matrix_case(case, ctx):
         kc = [c for c in plan_['conns'] if c.get('spread')]
         if kc and not any(c['kind'] == 'coupling' for c in plan_['conns']) and all(c.get('spread') for c in plan_['conns'] if c.get('delay')):
             break
+        if plan_.get('dde_approx'):
+            # delayed connections without spread, compiled with dde_approx=n: chains of order n and rate n/d
+            kc = [c for c in plan_['conns'] if c.get('delay')]
+            break
     else:
         raise RuntimeError('generator could not satisfy the constraints')
     res = c16.run_case({'cseed': case['cseed'], 'spec': plan_, 'case_risk': []}, ctx)
@@ -201,6 +217,10 @@ def run_matrix_case(case, ctx):
     res['case_extra'] = {'case_risk': []}
     m = res.setdefault('mech', {})
     m['matrix_kernel_connections'] = len(kc)
+    if plan_.get('dde_approx'):
+        m['matrix_dde_approx_models'] = 1
+        res['features'] = list(res.get('features', [])) + ['dde_approx']
+        kc = []
     m['kernel_edges'] = m.get('kernel_edges', 0) + len(kc)
     if any(int(round((c['delay'] / c['spread']) ** 2)) != int((c['delay'] / c['spread']) ** 2) for c in kc):
         m['matrix_kernel_order_rounds_up'] = 1
@@ -231,8 +251,22 @@ def run_case(case, ctx):
         kw = {}
         if solver == 'scipy':
             kw = dict(method='RK45', rtol=1e-9, atol=1e-11)
+        spec_py = spec
+        if spec.get('dde_approx'):
+            import copy as _copy
+            spec_py = _copy.deepcopy(spec)
+            from vp.ref import _walk as _w
+
+            def _strip(c_):
+                for e_ in c_.get('edges', []):
+                    e_[3].pop('spread', None)
+                for s_ in c_.get('subs', {}).values():
+                    _strip(s_)
+            _strip(spec_py['circ'])
+            kw['dde_approx'] = spec['dde_approx']
+            mech['dde_approx_models'] = 1
         try:
-            df = observe.run_model(spec, T=steps * dt, dt=dt, solver=solver, outputs=outputs, vectorize=vec, **kw)
+            df = observe.run_model(spec_py, T=steps * dt, dt=dt, solver=solver, outputs=outputs, vectorize=vec, **kw)
         except Exception as e:
             import traceback
             raise observe.Mismatch(f"loud: run raised {type(e).__name__}: {e} :: {traceback.format_exc()[-600:]}")
